@@ -117,26 +117,6 @@ func buildPred(c *Case) *predCase {
 	}
 	anyMethod := false
 	for _, it := range requested(c) {
-		if len(it.TParams) > 0 {
-			var sc []predVar
-			for _, tp := range it.TParams {
-				ct := AliasT("constraint")
-				switch {
-				case strings.HasPrefix(tp.Constraint, "pkgnum:"):
-					p, _ := strconv.Atoi(strings.TrimPrefix(tp.Constraint, "pkgnum:"))
-					ct = Named(p, "Num")
-				case strings.HasPrefix(tp.Constraint, "pkgiface:"):
-					p, _ := strconv.Atoi(strings.TrimPrefix(tp.Constraint, "pkgiface:"))
-					ct = Named(p, "I")
-				case tp.Constraint == "method":
-					ct = Named(-1, "LocalC")
-				}
-				sc = append(sc, mkVar(tp.Name, ct, ""))
-			}
-			pc.Scopes = append(pc.Scopes, sc)
-			pc.scopeOf = append(pc.scopeOf, it.Name+".[tparams]")
-			pc.nParams = append(pc.nParams, -1)
-		}
 		for _, m := range it.Methods {
 			anyMethod = true
 			sc := []predVar{}
@@ -150,6 +130,35 @@ func buildPred(c *Case) *predCase {
 			pc.scopeOf = append(pc.scopeOf, it.Name+"."+m.Name)
 			pc.nParams = append(pc.nParams, len(m.Params))
 
+		}
+		// Mocker.Mock builds the methods first; the type parameter list is
+		// evaluated afterwards, when the MockData literal is put together
+		if len(it.TParams) > 0 {
+			var sc []predVar
+			for _, tp := range it.TParams {
+				ct := AliasT("constraint")
+				switch {
+				case strings.HasPrefix(tp.Constraint, "pkgnum:"):
+					p, _ := strconv.Atoi(strings.TrimPrefix(tp.Constraint, "pkgnum:"))
+					ct = Named(p, "Num")
+				case strings.HasPrefix(tp.Constraint, "pkgiface:"):
+					p, _ := strconv.Atoi(strings.TrimPrefix(tp.Constraint, "pkgiface:"))
+					ct = Named(p, "I")
+				case strings.HasPrefix(tp.Constraint, "pkgkey:"):
+					p, _ := strconv.Atoi(strings.TrimPrefix(tp.Constraint, "pkgkey:"))
+					ct = Named(p, "Key")
+				case tp.Constraint == "method":
+					ct = Named(-1, "LocalC")
+				case tp.Constraint == "localkey":
+					ct = Named(-1, "LocalKey")
+				case tp.Constraint == "markerunion":
+					ct = IfaceEmbed(Named(-1, "LocalMarker")) // a literal that embeds a source-package type
+				}
+				sc = append(sc, mkVar(tp.Name, ct, ""))
+			}
+			pc.Scopes = append(pc.Scopes, sc)
+			pc.scopeOf = append(pc.scopeOf, it.Name+".[tparams]")
+			pc.nParams = append(pc.nParams, -1)
 		}
 	}
 	if anyMethod {
